@@ -274,6 +274,9 @@ def gen_op(rng, w, since_commit):
         pk = w.pkl(src) if src is not None and src._pkval_ is not None else w.rand_pk(rng)
         if rng.random() < 0.75:
             a = rng.choice(keyattrs) if keyattrs and rng.random() < 0.5 else rng.randrange(n)
+            if src is not None and src._rbits_:
+                was_read = [i for i, x in enumerate(w.attrs) if src._rbits_ & src._bits_[x]]
+                if was_read and rng.random() < 0.6: a = rng.choice(was_read)       # a column the session has read: optimistic check
             return {'k': 'extu', 'pk': pk, 'a': a, 'v': rng.choice([None, 0, 1, 2, 3, 8])}
         return {'k': 'extd', 'pk': pk}
     if r < 0.97: return {'k': 'commit'}
